@@ -19,7 +19,7 @@ def main():
         P.stream_eval(chk, cases, per_case=6 if chk.thorough else 3)
     else:
         chk.broken.append({'kind': 'correspondence', 'stream': 'plural-*', 'problem': 'driver could not be rebuilt from the regenerated model'})
-    budget = (40000 if chk.thorough else 4000) * (3 if chk.broken else 1)
+    budget = (60000 if chk.thorough else 12000) * (3 if chk.broken else 1)
     cex, tried = P.falsify_codomain(chk, budget)
     chk.evaluations += tried
     chk.coverage['falsifier'] = {'expressions_all_n': tried, 'widths': '0..5', 'found': cex is not None}
